@@ -61,6 +61,12 @@ def _c2():
 def _clifford_step(rng, n, cirq):
     """one Clifford step from the catalogue (exponent grid), accepted only if Cirq documents stabilizer effect"""
     for _ in range(40):
+        if rng.random() < 0.06:
+            # an operation on no qubits at all: a global phase (its own, qubit-less factor of a split state)
+            ang = float([math.pi / 2, math.pi, -math.pi / 2, math.pi / 4, 0.3][int(rng.integers(5))])
+            g0 = P.spec_by_name("GlobalPhase").make((ang,))
+            if cirq.has_stabilizer_effect(g0):
+                return {"t": "U", "spec": "GlobalPhase", "p": (ang,), "w": ()}
         k = 1 if (n == 1 or rng.random() < 0.55) else 2
         if k == 1:
             fam = ["XPow", "YPow", "ZPow", "HPow"][int(rng.integers(4))]
